@@ -97,9 +97,21 @@ def build_solver(cfg, rng, extra=None):
         opts.update(extra)
     with warnings.catch_warnings():
         warnings.simplefilter("ignore")
+        if rng.random() < 0.15:
+            # another solver of the same process, configured for sampling, noise and a penalty: nothing of it may leak
+            # into the solver built next (defaults shared between instances)
+            from tangelo.linq.noisy_simulation import NoiseModel
+            nm = NoiseModel(); nm.add_quantum_error("X", "depol", 0.2)
+            VQESolver({**opts, "backend_options": {"target": "cirq", "n_shots": 13, "noise_model": nm},
+                       "penalty_terms": {"N": [2.5, 0]}} if "qubit_hamiltonian" not in opts and "penalty_terms" not in opts else
+                      {**opts, "backend_options": {"target": "cirq", "n_shots": 13, "noise_model": nm}})
+            DECOYS[0] += 1
         s = VQESolver(opts)
         s.build()
     return s, mol
+
+
+DECOYS = [0]
 
 
 def rand_params(rng, n, zero=False):
